@@ -242,7 +242,7 @@ def systematic(tier):
             # a loop whose body is nullable never terminates in the real library: keep those for C11 only
             loopy = ("loop" in tagl) and any(x in ("nullable", "eof", "succ", "look", "nlook") for x in c)
             if tier == "thorough":
-                ctx_list = [ctxs[0], ctxs[1 + k % (len(ctxs) - 1)], ctxs[1 + (k * 3 + 2) % (len(ctxs) - 1)]]
+                ctx_list = [ctxs[0], ctxs[1 + k % (len(ctxs) - 1)]] if ns > 1 else [ctxs[0], ctxs[1 + k % (len(ctxs) - 1)], ctxs[1 + (k * 3 + 2) % (len(ctxs) - 1)]]
             else:
                 ctx_list = [ctxs[k % len(ctxs)]]
             k += 1
